@@ -15,5 +15,6 @@ chk = {"property_id": pid,
 m['checks'] = [c for c in m['checks'] if c['property_id'] != pid] + [chk]
 m['checks'].sort(key=lambda c: c['property_id'])
 m['engines'][0]['serves_properties'] = sorted(c['property_id'] for c in m['checks'])
+m['not_applicable'] = [x for x in m.get('not_applicable', []) if x['property_id'] != pid]
 json.dump(m, open('/verif/MANIFEST.json', 'w'), indent=1)
 print('checks:', [c['property_id'] for c in m['checks']])
